@@ -59,8 +59,10 @@ fn c02_o2_signed_announce_response() {
 }
 
 //@ ob: C03.O4p
-//@ tier: thorough
-//@ cap: 1200
+//@ tier: quick
+//@ cap: 800
+//@ rss: 1.0
+//@ time: 17
 //@ also: C02
 //@ desc: SignedAnnounce::from_dht_request = Ok iff the oracle said valid for (k, info_hash || t, sig) AND |now_us - t| <= 45 000 000 (both full u64, no overflow)
 //@ bounds: as C02.O2
